@@ -104,6 +104,23 @@ fn hmat_history(cx: &mut CaseCtx, ni: usize, nt: usize, hist: &[(usize, usize, u
             cx.violation(format!("HMAT table with a {}x{} locality structure sums to {}", ni, nt, sum8(&img)), obj(vec![("history", format!("{:?}", hist).into())]));
             return false;
         }
+        // a second structure behind it (the table's running sum has to carry on from the first)
+        let mut s2 = SystemLocality::new(loc_type(1), data_type(3), mts(2), 7, 1, 2);
+        s2.set_entry_value(0, 1, 0x00AB);
+        t.add_system_locality(s2);
+        let img2 = to_vec(&t);
+        cx.obs();
+        if sum8(&img2) != 0 || img2.len() != img.len() + 32 + 4 + 8 + 4 {
+            cx.violation(
+                format!("HMAT table with a {}x{} and a 1x2 locality structure has {} bytes summing to {}", ni, nt, img2.len(), sum8(&img2)),
+                obj(vec![("history", format!("{:?}", hist).into())]),
+            );
+            return false;
+        }
+        if get(&img2, img2.len() - 2, 2) != 0x00AB || img2[..img.len()][36..] != img[36..] {
+            cx.violation(format!("HMAT table: adding a second locality structure disturbs the first {}x{} one or loses its own cell", ni, nt), obj(vec![("history", format!("{:?}", hist).into())]));
+            return false;
+        }
     }
     true
 }
